@@ -109,15 +109,16 @@ class C08(Property):
         # family: residual scaling only (res_ref, no ref/ref0) and sub-groups that approximate their
         # own jacobian (semi-totals): the group-level linear operators must honour a scaling that
         # only the residual vector carries
-        for _ in range(8 if tier == 'quick' else 200):
+        for _ in range(14 if tier == 'quick' else 200):
             yield {'gen_seed': rng.randrange(10 ** 9),
                    'opts': {'safe_indices': True, 'scaling': True, 'array_scaling': False,
                             'implicit': False, 'cycles': False, 'n_comps': (4, 7)},
-                   'cfg': {'mode': rng.choice(['rev', 'rev', 'fwd']),
-                           'linear': rng.choice([None, 'runonce', 'direct']), 'nonlinear': None,
+                   'cfg': {'mode': rng.choice(['rev', 'rev', 'rev', 'fwd']),
+                           # (block solvers at the root call the sub-groups' own solve_linear)
+                           'linear': rng.choice([None, 'runonce', 'lbgs', 'direct']), 'nonlinear': None,
                            'sub_linear': None, 'jac': None,
                            'partials': rng.choice(['dense', 'cs']),
-                           'sub_approx': rng.choice(['cs', 'cs', None])},
+                           'sub_approx': rng.choice(['cs', 'cs', 'cs', None])},
                    'resid_only': rng.randrange(10 ** 6)}
         for _ in range(n):
             cyc = rng.random() < 0.4
@@ -166,7 +167,7 @@ class C08(Property):
                 for o in c['outs']:
                     for key in ('ref', 'ref0', 'res_ref', 'via_solver_options'):
                         o.pop(key, None)
-                    if c['kind'] != 'ivc' and r2.random() < 0.7:
+                    if c['kind'] != 'ivc' and r2.random() < 0.9:
                         o['res_ref'] = rat(r2.choice([Fraction(2), Fraction(-3), Fraction(1, 2),
                                                       Fraction(5)]))
         voi = gm.gen_voi(rng, md, units=False, scaling=False)
